@@ -166,7 +166,7 @@ impl Run {
         };
         let dtok = w.app.instantiate_contract(tok_id, creator.clone(), &tmsg, &[], "dtok", None).unwrap();
         w.register("dtok", &dtok);
-        let period = if s(&cfg["period"], "k") == "h" { Duration::Height(n(&cfg["period"], "v")) } else { Duration::Time(n(&cfg["period"], "v")) };
+        let period = if s(&cfg["period"], "k") == "h" { Duration::Height(n(&cfg["period"], "v")) } else { Duration::Time(ticks_to_secs(n(&cfg["period"], "v"))) };
         let voters = cfg["voters"].as_array().unwrap().clone();
         let mut group = None;
         let r;
@@ -540,7 +540,7 @@ pub fn rand_cfg(rng: &mut Rng) -> Value {
         let d = voters[rng.below(voters.len() as u64) as usize].clone();
         voters.push(d);
     }
-    let period = if rng.chance(1, 2) { json!({"k":"h","v":rng.range(1, 4)}) } else { json!({"k":"t","v":rng.range(5, 30)}) };
+    let period = if rng.chance(1, 2) { json!({"k":"h","v":rng.range(1, 4)}) } else { json!({"k":"t","v":10 * rng.range(1, 3)}) };
     let executor = if !flex { "none".to_string() } else { rng.pick(&["none", "none", "member", "a1", "a2"]).to_string() };
     let dep = if !flex { json!({"kind":"none","amt":0,"refund":false}) } else {
         match rng.below(4) {
